@@ -57,7 +57,8 @@ func strsOfAny(v any) []string {
 }
 
 func c15rec(kind string, ss []string) Ev {
-	ev := Ev{"op": "new", "kind": kind, "ss": toksJ(ss), "q": []int{}, "split": map[string]any{"toks": [][]int{}, "ok": false}}
+	ev := Ev{"op": "new", "kind": kind, "ss": toksJ(ss), "q": []int{}, "split": map[string]any{"toks": [][]int{}, "ok": false},
+		"split2": map[string]any{"toks": [][]int{}, "ok": false}}
 	guard(ev, func() {
 		var q string
 		if kind == "quote" {
@@ -72,6 +73,12 @@ func c15rec(kind string, ss []string) Ev {
 		ev["q"] = bytesJ(q)
 		toks, ok := shell.Split(q)
 		ev["split"] = map[string]any{"toks": toksJ(toks), "ok": ok}
+		// the same question again, an unrelated and then an incomplete input in between: same answer
+		shell.Split("rm -f x")
+		shell.Split(q)
+		shell.Split(q + " 'oops \"") // incomplete, directly before the question is asked again
+		toks2, ok2 := shell.Split(q)
+		ev["split2"] = map[string]any{"toks": toksJ(toks2), "ok": ok2}
 	})
 	return ev
 }
@@ -240,7 +247,7 @@ func c16scan(mk func() io.Reader) map[string]any { return c16scanM(mk, 0) }
 
 func c16scanM(mk func() io.Reader, mode int) map[string]any {
 	out := map[string]any{"toks": [][]int{}, "completes": []bool{}, "final": false, "err": "", "again": true,
-		"each": [][]int{}, "splitm": [][]int{}}
+		"each": [][]int{}, "splitm": [][]int{}, "splitm2": [][]int{}}
 	sc := c16scanner(mk(), mode)
 	toks, comps := [][]int{}, []bool{}
 	for sc.Next() {
@@ -263,7 +270,9 @@ func c16scanM(mk func() io.Reader, mode int) map[string]any {
 	each := [][]int{}
 	c16scanner(mk(), mode+1).Each(func(t string) bool { each = append(each, bytesJ(t)); return true })
 	out["each"] = each
-	out["splitm"] = toksJ(c16scanner(mk(), mode+2).Split())
+	sp := c16scanner(mk(), mode+2)
+	out["splitm"] = toksJ(sp.Split())
+	out["splitm2"] = toksJ(sp.Split()) // the input is exhausted: nothing more
 	return out
 }
 
